@@ -456,6 +456,11 @@ func (conn *Conn) finishCall(ctx *Context, call *Call, seq uint64) {
 			call.Value = make([]byte, len(ctx.value))
 		}
 		copy(call.Value, ctx.value)
+	} else {
+		// An empty reply body. A Call object that its owner sends again with
+		// RoundTrip still holds the previous reply in Value: decode the empty
+		// body, not that.
+		call.Value = nil
 	}
 	err := conn.codec.ReadResponseBody(call.Value, call.Reply)
 	if err != nil {
